@@ -59,7 +59,8 @@ InitObjs == { C!Obj(<<>>, <<B(1)>>),
 \* "negrow": ONE row (one end point of a segment, one vertex of a polygon) of the units at odd flat positions is
 \* handed over as -x: each row is a projective point of its own - except for tangent vectors, where (x, v) and
 \* (-x, v) are different objects.
-Routes == {"array", "list", "object", "negarray", "negrow", "intdata", "fortran", "strided"}
+\* "iterator": a one-shot iterator over the item objects instead of a list
+Routes == {"array", "list", "iterator", "object", "negarray", "negrow", "intdata", "fortran", "strided"}
 HP == C!Obj(hshape, hpc)
 HD == C!Obj(hshape, hdc)
 KeepHeld == UNCHANGED <<held, hshape, hpc, hdc>>
@@ -208,11 +209,18 @@ Combine(which, order) ==
   LET O == IF which = "rev" THEN C!Obj(shape, Rev(pc))
            ELSE IF which = "unit" THEN C!Obj(<<>>, <<B(K)>>)
            ELSE C!Obj(<<2>>, <<B(K), B(1)>>)
-      RP == IF order = "first" THEN C!Combine(<<P, O>>) ELSE C!Combine(<<O, P>>)
-      RD == IF order = "first" THEN C!Combine(<<D, O>>) ELSE C!Combine(<<O, D>>)
-  IN /\ Step /\ Len(pc) + Len(O.cell) <= MaxSize
+      \* the list handed to combine: the object alone, with one other object (either order), or with two others
+      Os == IF which = "alone" THEN <<>>
+            ELSE IF which = "three" THEN <<C!Obj(<<2>>, <<B(K), B(1)>>), C!Obj(<<>>, <<B(2)>>)>>
+            ELSE <<O>>
+      LP == IF order = "first" THEN <<P>> \o Os ELSE Os \o <<P>>
+      LD == IF order = "first" THEN <<D>> \o Os ELSE Os \o <<D>>
+      RP == C!Combine(LP)
+      RD == C!Combine(LD)
+  IN /\ Step /\ Len(RP.cell) <= MaxSize
+     /\ which \in {"alone", "three"} => order = "first"
      /\ shape' = RP.shape /\ pc' = RP.cell /\ dc' = RD.cell
-     /\ last' = [a |-> "combine", oshape |-> O.shape, ocell |-> O.cell, order |-> order]
+     /\ last' = [a |-> "combine", others |-> Os, order |-> order]
 
 AsType(dt) ==
   /\ Step /\ UNCHANGED <<shape, pc, dc>>
@@ -261,7 +269,7 @@ Next ==
   \/ \E i \in 0..(MaxSize - 1) : PutHeld(i)
   \/ SetHeld
   \/ Stack
-  \/ \E which \in {"rev", "unit", "pair"} : \E order \in {"first", "last"} :
+  \/ \E which \in {"rev", "unit", "pair", "alone", "three"} : \E order \in {"first", "last"} :
         /\ Lean => (order = "last") = (which = "rev")
         /\ Combine(which, order)
   \/ \E dt \in {"complex128", "float32", "float64"} : AsType(dt)
